@@ -1,7 +1,7 @@
 """C20 - npTDMS closes the files it opened, only those, and fails loudly afterwards.
 
 Fault enumeration on the simulated descriptor table: per world and API scenario
-  (1) a fault-free run, (1b) EVERY open() call failing in turn, (2) EIO injected at EVERY read event in turn, (3) EVERY structural field
+  (1) a fault-free run, (1b) EVERY open() call failing in turn, (2) EIO, then a KeyboardInterrupt, injected at EVERY read event in turn, (3) EVERY structural field
   of every segment garbled with each of several values, a foreign index, (4) close() inserted at
   EVERY position of an op history (generators suspended), double close, reads after close."""
 import io
@@ -25,7 +25,7 @@ N = {'quick': 300, 'thorough': 15000}
 BATCH = 4
 RULE = ('seeded small worlds (1-4 segments, <=3 channels, optional index file, DAQmx worlds included); per world the '
         'scenarios read / read_metadata / open+ops+close / with-open / defragment / TdmsWriter with-block over {path, '
-        'stream} x {index absent, present}; for each scenario: fault-free run, every open() call of the library failing in turn, then EIO at EVERY read event k < N '
+        'stream} x {index absent, present}; for each scenario: fault-free run, every open() call of the library failing in turn, then EIO, and separately a KeyboardInterrupt (the caller interrupted inside the read), at EVERY read event k < N '
         '(exhaustive per scenario), EVERY structural field (tag, ToC, version, both offsets, object count, path '
         'length, index header, type code, dimension, count, string total, property count / name length / type / '
         'string length) garbled with 0, all-ones, a wrong tag / unknown type, a moderately large count, plus a '
@@ -35,7 +35,7 @@ RULE = ('seeded small worlds (1-4 segments, <=3 channels, optional index file, D
         'while a library-owned handle had been opened')
 EXPECTED_PROBES = ['eio:read-raised', 'corrupt:raised', 'corrupt:survived', 'foreign-index', 'close-with-suspended-generator',
                    'read-after-close:raised', 'read-after-close:cache-hit', 'writer-block-raises', 'writer-block-enospc', 'realfs-fd-check',
-                   'index-present', 'overlapping-files', 'open-fails:raised', 'writer-open-fails']
+                   'index-present', 'overlapping-files', 'open-fails:raised', 'writer-open-fails', 'interrupt:raised']
 ASSUMPTIONS = ['every open() call the library makes on a path is made to fail in turn (EMFILE for the data file, EACCES for the index file) in the path scenarios and in the TdmsWriter with-block; failures of seek()/tell() are not injected; a full disk (ENOSPC at every write event in turn) is injected for the TdmsWriter with-block only',
                'descriptors left open when TdmsFile.open(...) itself raises are not judged (the statement does not list it)']
 
@@ -174,7 +174,7 @@ def sc_read_metadata(st, kind, w):
 def sc_open_close(st, kind, w):
     try:
         tf = lib.TdmsFile.open(file_arg(st, kind, 'w.tdms'))
-    except Exception:
+    except (Exception, KeyboardInterrupt):
         raise NotJudged()
     try:
         for g in tf.groups():
@@ -193,7 +193,7 @@ def sc_open_close(st, kind, w):
 def sc_with_open(st, kind, w):
     try:
         ctx = lib.TdmsFile.open(file_arg(st, kind, 'w.tdms'))
-    except Exception:
+    except (Exception, KeyboardInterrupt):
         raise NotJudged()
     with ctx as tf:
         for g in tf.groups():
@@ -229,7 +229,7 @@ def judge(st, res, label):
     return out
 
 
-def run_scenario(name, fn, kind, w, data, index, res, label, fail_at=None, fail_open=None, counts=None):
+def run_scenario(name, fn, kind, w, data, index, res, label, fail_at=None, fail_open=None, counts=None, interrupt=False):
     """One execution in a fresh store; returns (violations, number of read events, raised?)."""
     with store(record=False) as st:
         st.put('w.tdms', data)
@@ -237,6 +237,7 @@ def run_scenario(name, fn, kind, w, data, index, res, label, fail_at=None, fail_
             st.put('w.tdms_index', index)
         if fail_at is not None:
             st.fs.fail_reads = {fail_at}
+            st.fs.fail_with_interrupt = interrupt
         if fail_open is not None:
             st.fs.fail_opens = {fail_open}
         raised = None
@@ -244,6 +245,10 @@ def run_scenario(name, fn, kind, w, data, index, res, label, fail_at=None, fail_
             fn(st, kind, w)
         except NotJudged:
             return [], st.fs.read_events, 'not-judged'
+        except KeyboardInterrupt:
+            if not interrupt:
+                raise
+            raised = 'KeyboardInterrupt'
         except Exception as exc:
             raised = type(exc).__name__
         if counts is not None:
@@ -307,6 +312,21 @@ def execute(case):
                         res.probe('eio:read-raised')
                     for v in vs:
                         v.sig.update(phase='eio', scenario=name, kind=kind, param=k)
+                    res.violations += vs
+                    if len(res.violations) > 3:
+                        return res
+            # (2b) the caller is interrupted (KeyboardInterrupt) inside every read event in turn
+            if only is None or only[0] == 'interrupt':
+                ks = range(nreads) if only is None else [only[3]]
+                for k in ks:
+                    vs, _n, raised = run_scenario(name, fn, kind, w, data, index, res, ' interrupted at read event %d' % k,
+                                                  fail_at=k, interrupt=True)
+                    res.sub_evals += 1
+                    res.fault('interrupt')
+                    if raised == 'KeyboardInterrupt':
+                        res.probe('interrupt:raised')
+                    for v in vs:
+                        v.sig.update(phase='interrupt', scenario=name, kind=kind, param=k)
                     res.violations += vs
                     if len(res.violations) > 3:
                         return res
